@@ -467,7 +467,7 @@ Definition inner_tagged (f : frame) (cfg : config) : result (list (lkind * text)
   let t := fst (select_rows (rows f) (limit cfg) (top_tail cfg) lz) in
   let iw := index_width (rows f) (limit cfg) (top_tail cfg) lz in
   let ws := col_widths f cfg t in
-  let cts := firstn (length ws) (col_types f) in     (* zip(col_types, col_width) *)
+  let cts := col_types f in
   bind (mapM (data_line lz iw ws) (shown_lines (rows f) (limit cfg) (top_tail cfg) lz))
   (fun body =>
    Ok ([(KBox, rule 9484 9516 9488 9472 iw ws);
@@ -476,6 +476,17 @@ Definition inner_tagged (f : frame) (cfg : config) : result (list (lkind * text)
        ++ [(KBox, rule 9566 9578 9569 9552 iw ws)]
        ++ body
        ++ [(KBox, rule 9492 9524 9496 9472 iw ws)])).
+
+(* printed width of a box line: index column, its borders, the cells and theirs *)
+Fixpoint joinw (ws : list nat) : nat :=
+  match ws with
+  | [] => 0
+  | w :: r => match r with [] => w | _ => w + 3 + joinw r end
+  end.
+Definition table_width (f : frame) (cfg : config) : nat :=
+  let lz := lazy f in
+  let t := fst (select_rows (rows f) (limit cfg) (top_tail cfg) lz) in
+  index_width (rows f) (limit cfg) (top_tail cfg) lz + 5 + joinw (col_widths f cfg t).
 
 (* str.replace(old, new), old non-empty *)
 Fixpoint is_prefix (p s : text) : bool :=
